@@ -112,3 +112,13 @@ Proof.
   split; [auto with arith|]. split; [exact ex_fv_exact|]. split; [exact ex_fw_exact|].
   split; [reflexivity|]. split; [reflexivity|]. vm_compute. reflexivity.
 Qed.
+(* ---- tie of the model to the source of this run (package r2c2): gen/SrcParDot.v is regenerated from
+   src/vector/vec_f64.rs (Vector<f64>::dot_f64) by driver/rust2coq.py on every check run: the size guard, num_threads (the
+   parameter t), chunk_size = size / num_threads (Panic DivZero for t = 0), start / end of every worker, the checked slicing
+   by the main thread, the workers as values (scope.spawn(|| BLOCK) = the computation of BLOCK) and the sum in join order.
+   Proofs/SrcEqParDot.v proves it equal to pardot of Model/ParDot.v for every arithmetic, every t and all operands. *)
+From OV Require Proofs.SrcEqParDot.
+Theorem model_is_source_C16_ParDot : forall A : Arith, @SrcEqParDot.model_is_source_ParDot A.
+Proof. intros A. exact SrcEqParDot.model_is_source_ParDot_lemma. Qed.
+Check model_is_source_C16_ParDot : forall A : Arith, @SrcEqParDot.model_is_source_ParDot A.
+Print Assumptions model_is_source_C16_ParDot.
